@@ -89,6 +89,8 @@ def gen_scenario(rng):
     for tk in ticks:
         t = tk * G + G / 2
         a = rng.randint(1, len(acts))
+        if acts[a - 1]["threads"] > 1:
+            continue      # see assumptions: a suspended multi-threaded execution resumes with the weight of one thread
         x = rng.random()
         if a in susp:
             events.append(S.new_event(t, "resume", a))
@@ -98,7 +100,10 @@ def gen_scenario(rng):
             susp.add(a)
         elif x < 0.8 and acts[a - 1]["kind"] == "exec" and acts[a - 1]["threads"] == 1:
             events.append(S.new_event(t, "setprio", a, v=rng.choice([1, 2, 3, 4])))
-        elif not ti_ok and acts[a - 1]["kind"] == "exec" and acts[a - 1]["threads"] == 1:
+        elif not ti_ok and acts[a - 1]["kind"] == "exec" and acts[a - 1]["threads"] == 1 and \
+                not hosts[acts[a - 1]["host"] - 1]["sprof"]:
+            # (Action::set_bound is a raw model operation: it neither clamps to the core speed nor survives a speed change,
+            # so bound changes are exercised on hosts of constant speed, with bounds below the core speed)
             speed = hosts[acts[a - 1]["host"] - 1]["speeds"][0]
             events.append(S.new_event(t, "setbound", a, r=speed * rng.choice([F(1, 4), F(1, 2), F(3, 4)])))
     # whatever is still suspended is resumed, so that the workload terminates
@@ -215,7 +220,10 @@ def run(ctx):
                        "with non-increasing bandwidth profiles, 2-8 execs / comms (bounds, priorities, threads), up to 8 scripted suspend / "
                        "resume / priority / bound changes; each workload runs under every valid combination of cpu/optim, network/optim and "
                        "maxmin-selective-update (5 x 3, TI only when accepted); non-trivial = at least one scripted change or profile")
-    ctx.assumptions += ["bandwidth profiles only decrease and latency profiles are not used here: the two recorded deviations of C22 would "
+    ctx.assumptions += ["multi-threaded executions are not suspended: Action::resume restores Action::sharing_penalty_ (1.0) whereas "
+                        "CpuCas01Action created the variable with penalty 1/threads, so after a resume such an execution shares as a "
+                        "single thread under every configuration alike (observed, outside the statement of C19)",
+                        "bandwidth profiles only decrease and latency profiles are not used here: the two recorded deviations of C22 would "
                         "otherwise be reported again (they do not depend on the update algorithm, except that the latency one shows in finish "
                         "dates only with network/optim:Full)",
                         "bound changes go through the model action (no public API changes the bound of a running execution)",
